@@ -14,7 +14,7 @@
 (* placement of the keys.                                                  *)
 (***************************************************************************)
 EXTENDS CMLin, IntNum, Naturals, Sequences, FiniteSets, TLC
-CONSTANTS N, K, Fault, DieAt, Assign, Ret,
+CONSTANTS N, K, Fault, DieAt, Assign, Ret, MergerDies,
           W, D,            \* sketch shape
           ItemKeys,        \* item -> sequence of <<key, multiplicity>>  (what the callback adds)
           ColChoices       \* admissible placements key -> columns
